@@ -3,6 +3,7 @@ package main
 import (
 	"fmt"
 	"strconv"
+	"strings"
 
 	"github.com/frankkopp/FrankyGo/internal/evaluator"
 	"github.com/frankkopp/FrankyGo/internal/movegen"
@@ -151,6 +152,26 @@ func posMonitor(args []string) int {
 	seen := map[uint64]bool{}
 	keyToCore := map[uint64]string{} // key -> placement/side/rights/ep  (collision / function check)
 	coreToKey := map[string]uint64{}
+	// light snapshot taken at EVERY nesting level around each do/undo pair (the full snapshot is
+	// compared around the whole excursion): a slot of the undo history that still holds what a
+	// sibling line wrote there shows only at the level where it is read back
+	light := func(p *position.Position) string {
+		return fmt.Sprintf("fen=%s key=%d checkflag=%d last=%d captured=%d hist=%d nhm=%d", p.StringFen(), uint64(p.ZobristKey()), p.VerifHasCheckFlag(),
+			uint32(p.LastMove()), int(p.LastCapturedPiece()), p.VerifHistoryCounter(), p.VerifNextHalfMoveNumber())
+	}
+	var exRoot func() map[string]interface{}
+	// C09 at every level: the cached in-check answer must be the board's answer whatever history led here
+	checkCache := func(p *position.Position, path *[]string, what string) {
+		us := p.NextPlayer()
+		if p.PiecesBb(us, King) == 0 {
+			return
+		}
+		if got, want := p.HasCheck(), p.IsAttacked(p.KingSquare(us), us.Flip()); got != want {
+			v := exRoot()
+			v["path"] = strings.Join(*path, " ")
+			rep.Violate("check-cache-stale", v, fmt.Sprintf("%s: HasCheck()=%v but the king is attacked=%v in %s", what, got, want, p.StringFen()))
+		}
+	}
 	var excursion func(p *position.Position, depth int, path *[]string)
 	excursion = func(p *position.Position, depth int, path *[]string) {
 		if depth == 0 {
@@ -162,8 +183,32 @@ func posMonitor(args []string) int {
 		pl := mg.GeneratePseudoLegalMoves(p, movegen.GenAll, false)
 		moves := make([]Move, len(*pl))
 		copy(moves, *pl)
-		// a few random moves + a null move
-		for i := 0; i < 3 && len(moves) > 0; i++ {
+		// a few random moves + a null move (before or after them: a null move that comes first
+		// reads back a history slot last written by a sibling line)
+		nullFirst := rng.Bool()
+		doNull := func() {
+			if !p.HasCheck() && rng.Chance(40) {
+				lb := light(p)
+				p.DoNullMove()
+				*path = append(*path, "null")
+				excursion(p, depth-1, path)
+				p.UndoNullMove()
+				if la := light(p); la != lb {
+					v := exRoot()
+					v["path"] = strings.Join(*path, " ")
+					v["fields"] = "inner-level"
+					rep.Violate("undo-does-not-restore", v, "after undoing the null move at depth "+strconv.Itoa(len(*path))+": before "+lb+" ; after "+la)
+				}
+				checkCache(p, path, "after undoing a null move")
+				*path = (*path)[:len(*path)-1]
+				rep.Stats["excursion_nullmoves"]++
+			}
+		}
+		if nullFirst {
+			doNull()
+		}
+		nMoves := 1 + rng.Intn(3)
+		for i := 0; i < nMoves && len(moves) > 0; i++ {
 			m := moves[rng.Intn(len(moves))]
 			if rng.Chance(50) { // prefer special moves when present
 				for _, x := range moves {
@@ -174,28 +219,41 @@ func posMonitor(args []string) int {
 					}
 				}
 			}
+			if rng.Chance(40) { // prefer a checking move: the next level then starts in check
+				for _, x := range moves {
+					if p.GetPiece(x.To()).TypeOf() != King && p.GivesCheck(x) && rng.Chance(50) {
+						m = x
+						break
+					}
+				}
+			}
 			if p.GetPiece(m.To()).TypeOf() == King {
 				continue
 			}
-			if rng.Chance(30) {
+			if rng.Chance(60) {
 				p.HasCheck() // fills the check-flag cache
 			}
+			lb := light(p)
 			p.DoMove(m)
 			*path = append(*path, m.StringUci())
 			if p.WasLegalMove() {
 				excursion(p, depth-1, path)
 			}
-			*path = (*path)[:len(*path)-1]
 			p.UndoMove()
+			if la := light(p); la != lb {
+				v := exRoot()
+				v["path"] = strings.Join(*path, " ")
+				v["fields"] = "inner-level"
+				rep.Violate("undo-does-not-restore", v, "after undoing "+m.StringUci()+" at depth "+strconv.Itoa(len(*path))+": before "+lb+" ; after "+la)
+			}
+			if rng.Chance(30) {
+				checkCache(p, path, "after undoing "+m.StringUci())
+			}
+			*path = (*path)[:len(*path)-1]
 			rep.Stats["excursion_moves"]++
 		}
-		if !p.HasCheck() && rng.Chance(40) {
-			p.DoNullMove()
-			*path = append(*path, "null")
-			excursion(p, depth-1, path)
-			*path = (*path)[:len(*path)-1]
-			p.UndoNullMove()
-			rep.Stats["excursion_nullmoves"]++
+		if !nullFirst {
+			doNull()
 		}
 	}
 	w.Stream(n, true, func(g GamePos) {
@@ -250,6 +308,7 @@ func posMonitor(args []string) int {
 		// --- C03: excursions
 		before := snap(p, ev, true)
 		var path []string
+		exRoot = in
 		excursion(p, exDepth, &path)
 		after := snap(p, ev, true)
 		if d := before.diff(after); len(d) > 0 {
